@@ -449,51 +449,87 @@ def run(ctx):
 
     def arm(name):
         return kit.dominated_region(pp, dsw[2][dn[name]])
-    # .fill
+    from .. import emis
+
+    def unit(x):
+        """the block that stands for an emission on a path: the appending call, or the header of the loop that repeats it"""
+        if isinstance(x["mult"], tuple) and x["mult"][0] in ("range", "chars", "loop?"):
+            inner = [(len(body), h) for h, (body, l) in lps.items() if x["bb"] in body and h != outer]
+            if inner:
+                return min(inner)[1]
+        return x["bb"]
+
+    def one_per_path(reg, blocks):
+        """every path through the directive's arm that does not end in an error passes exactly one of `blocks`"""
+        blocks = set(blocks)
+        if not blocks:
+            return False
+        errb = kit.error_blocks(pp)
+        dead = {b for b in pp.live_blocks() if pp.term(b)["k"] == "unreachable"}
+        sm = pp.succ_map()
+        leaving = {b for b in reg if any(x not in reg and x not in dead for x in sm[b])} - errb
+        start = min(reg)
+        # at least once: no way out of the arm that avoids all of them (error exits aside)
+        if (pp.reachable(start, avoid=blocks | errb) & leaving) - blocks:
+            return False
+        # at most once: none of them can be reached from another (or from itself) without starting the next statement
+        for x in blocks:
+            after = set()
+            for y in sm[x]:
+                if y in lps and x in lps[y][0] and y != outer:
+                    continue
+                after |= pp.reachable(y, avoid={outer})
+            inner_body = lps[x][0] if x in lps else set()
+            if (after - inner_body) & blocks:
+                return False
+        return True
+
+    def lit_payload(e):
+        return _is_lit_payload(e)
+
+    # .fill: exactly one word, the literal itself
     reg = arm("Fill")
     ctx.instance(1)
-    bytes_ = [(b, t) for b, t, c in pp.calls() if b in reg and c == "lace::lexer::Token::byte"]
-    ok = len(bytes_) == 2 and all(_is_lit_payload(pp.expr(t["args"][0], 8)) for b, t in bytes_) and not any(
-        c == "lace::lexer::Token::nullbyte" for b, t, c in pp.calls() if b in reg)
-    ctx.oblig(ok, {".fill": [expr_str(pp.expr(t["args"][0], 8), 60) for b, t in bytes_]}, "the literal itself (cast only)")
+    em = emis.emissions(prog, pp, reg)
+    ok = bool(em) and all(x["kind"] == "byte" and x["mult"] == 1 and emis.all_defs_satisfy(pp, x["value"], lit_payload) for x in em) and one_per_path(reg, [unit(x) for x in em])
+    ctx.oblig(ok, {".fill": [(x["kind"], expr_str(x["value"], 50) if x["value"] else None, str(x["mult"])[:40]) for x in em]}, "one word per path: the literal itself (cast only)")
     if not ok:
-        ctx.violation("fill", sp_file_line(pp.term(dsw[2][dn["Fill"]]).get("sp")), ".fill does not push exactly the literal's value: %s" % [expr_str(pp.expr(t["args"][0], 8), 60) for b, t in bytes_])
-    # .blkw
+        ctx.violation("fill", sp_file_line(pp.term(dsw[2][dn["Fill"]]).get("sp")), ".fill does not append exactly the literal's value once: %s"
+                      % [(x["kind"], expr_str(x["value"], 50) if x["value"] else x.get("what"), str(x["mult"])[:40]) for x in em])
+    # .blkw n: n zero words
     reg = arm("Blkw")
     ctx.instance(1)
-    nulls = [b for b, t, c in pp.calls() if b in reg and c == "lace::lexer::Token::nullbyte"]
-    inner = [h for h, (body, l) in lps.items() if h in reg]
-    in_loop = all(any(b in lps[h][0] for h in inner) for b in nulls)
-    range_ok = True
-    for h in inner:
-        t = pp.term(h)
-        e = pp.expr(t["args"][0], 10) if t["k"] == "call" else None
-        rng = [x for x in expr_walk(e) if x[0] == "agg" and x[1][0] == "adt" and str(x[1][1]).endswith("ops::range::Range")] if e else []
-        range_ok = range_ok and bool(rng) and rng[0][2][0] == ("const", 0) and _is_lit_payload(rng[0][2][1])
-    ok = len(nulls) == 2 and in_loop and len(inner) == 2 and range_ok and not any(c == "lace::lexer::Token::byte" for b, t, c in pp.calls() if b in reg)
-    ctx.oblig(ok, {".blkw": "%d zero words pushed inside %d loops over 0..n" % (len(nulls), len(inner))}, "Range 0..literal")
+    em = emis.emissions(prog, pp, reg)
+    def count_ok(m):
+        return isinstance(m, tuple) and m[0] in ("range", "repeat") and emis.all_defs_satisfy(pp, m[1], lit_payload)
+    ok = bool(em) and all(x["kind"] == "zero" and count_ok(x["mult"]) for x in em) and one_per_path(reg, [unit(x) for x in em])
+    ctx.oblig(ok, {".blkw": [(x["kind"], (x["mult"][0], expr_str(x["mult"][1], 50)) if isinstance(x["mult"], tuple) and len(x["mult"]) > 1 else x["mult"]) for x in em]}, "n zero words, n the literal")
     if not ok:
-        ctx.violation("blkw", sp_file_line(pp.term(dsw[2][dn["Blkw"]]).get("sp")), ".blkw n does not push exactly n zero words (pushes %d, loops %d, range 0..n: %s)" % (len(nulls), len(inner), range_ok))
-    # .stringz
+        ctx.violation("blkw", sp_file_line(pp.term(dsw[2][dn["Blkw"]]).get("sp")), ".blkw n does not append exactly n zero words: %s"
+                      % [(x["kind"], (x["mult"][0], expr_str(x["mult"][1], 50)) if isinstance(x["mult"], tuple) and len(x["mult"]) > 1 else x["mult"], x.get("what")) for x in em])
+    # .stringz: one word per character of the unescaped text, then one zero word
     reg = arm("Stringz")
     ctx.instance(1)
-    inner = [h for h, (body, l) in lps.items() if h in reg]
-    byte_b = [b for b, t, c in pp.calls() if b in reg and c == "lace::lexer::Token::byte"]
-    null_b = [b for b, t, c in pp.calls() if b in reg and c == "lace::lexer::Token::nullbyte"]
-    ok = len(inner) == 1 and len(byte_b) == 1 and len(null_b) == 1
+    em = emis.emissions(prog, pp, reg)
+    chars_ = [x for x in em if x["kind"] == "byte-of-char" or (x["kind"] == "byte" and isinstance(x["mult"], tuple) and x["mult"][0] == "chars")]
+    zeros_ = [x for x in em if x["kind"] == "zero" and x["mult"] == 1]
+    ok = len(em) == 2 and len(chars_) == 1 and len(zeros_) == 1
     if ok:
-        body = lps[inner[0]][0]
-        ok = byte_b[0] in body and null_b[0] not in body and pp.dominates(inner[0], null_b[0])
-        # one byte per char of the unescaped text between the quotes
-        nx = pp.term(inner[0])
-        ok = ok and "Chars" in (nx.get("arg_tys") or [""])[0]
-        e = pp.expr(pp.term(byte_b[0])["args"][0], 6)
-        ok = ok and e[0] == "cast" and e[1] == "char"
-        it = expr_str(pp.expr(nx["args"][0], 14), 200)
-        ok = ok and "unescape" in it
-    ctx.oblig(ok, {".stringz": "one word per char of unescape(text), then one zero word"}, "loop structure")
+        cx, zx = chars_[0], zeros_[0]
+        if cx["kind"] == "byte":
+            v = cx["value"]
+            while v[0] == "cast":
+                ok = ok and v[1] == "char"
+                v = v[3]
+        src = expr_str(cx["mult"][1], 300)
+        ok = ok and "unescape" in src
+        # order: the characters first, the terminator after them, both on every path
+        ok = ok and zx["bb"] in pp.reachable(cx["bb"]) and cx["bb"] not in pp.reachable(zx["bb"], avoid={outer})
+        ok = ok and one_per_path(reg, [zx["bb"]])
+    ctx.oblig(ok, {".stringz": [(x["kind"], str(x["mult"])[:50]) for x in em]}, "one word per char of unescape(text), then one zero word")
     if not ok:
-        ctx.violation("stringz", sp_file_line(pp.term(dsw[2][dn["Stringz"]]).get("sp")), ".stringz does not expand to one word per (unescaped) character followed by exactly one terminating zero word")
+        ctx.violation("stringz", sp_file_line(pp.term(dsw[2][dn["Stringz"]]).get("sp")), ".stringz does not expand to one word per (unescaped) character followed by exactly one terminating zero word: %s"
+                      % [(x["kind"], str(x["mult"])[:60], x.get("what")) for x in em])
     ctx.finish_rule()
 
     # ------------------------------------------------------------------ R9
